@@ -328,8 +328,11 @@ inductive Event where
   | panic
   deriving Repr, Inhabited
 
-def strUsage (f : Path) (plus minus : Nat → Nat) (p : String × Range) : Event :=
-  .usage ⟨p.1, f, p.2.line, plus p.2.col, minus p.2.endCol⟩
+/-- `record_string_fixture_usage`: a fixture named inside a string literal; the span is the name's
+    own place in the literal's source text (`stringNameSpan`). -/
+def strUsage (f : Path) (lines : List Chars) (p : String × Range) : Event :=
+  let sp := stringNameSpan lines p.1.toList p.2.line p.2.col p.2.endLine p.2.endCol
+  .usage ⟨p.1, f, sp.1, sp.2.1, sp.2.2⟩
 
 def argUsage (f : Path) (a : Arg) : Event :=
   .usage ⟨a.name, f, a.line, a.col, a.col + a.name.utf8ByteSize⟩
@@ -367,8 +370,8 @@ def fixtureEvents (f : Path) (lines : List Chars) (modNames : List String) (name
 def visitFunction (f : Path) (lines : List Chars) (modNames : List String)
     (name : String) (decos : List Expr) (args : Args) (returns : Option Expr)
     (body : List Stmt) (r : Range) : List Event :=
-  let marks := decos.flatMap (fun d => (usefixturesNames d).map (strUsage f (· + 1) (· - 1))) ++
-    decos.flatMap (fun d => (parametrizeIndirect d).map (strUsage f (· + 1) (· - 1)))
+  let marks := decos.flatMap (fun d => (usefixturesNames d).map (strUsage f lines)) ++
+    decos.flatMap (fun d => (parametrizeIndirect d).map (strUsage f lines))
   match decos.find? isFixtureDecorator with
   | none => marks ++ testEvents f modNames name args body r
   | some deco =>
@@ -402,15 +405,15 @@ mutual
     | .assign ts v r =>
       visitAssignFixture f ts v r ++
       (if ts.any (isNameNamed "pytestmark") then
-        (usefixturesFromExpr v).map (strUsage f (· + 1) (· - 1)) else [])
+        (usefixturesFromExpr v).map (strUsage f lines) else [])
     | .annAssign t v _ =>
       if isNameNamed "pytestmark" t then
         match v with
-        | some v => (usefixturesFromExpr v).map (strUsage f (· + 1) (· - 1))
+        | some v => (usefixturesFromExpr v).map (strUsage f lines)
         | none => []
       else []
     | .classDef _ decos body _ =>
-      decos.flatMap (fun d => (usefixturesNames d).map (strUsage f (· + 1) (· - 1))) ++
+      decos.flatMap (fun d => (usefixturesNames d).map (strUsage f lines)) ++
       visitStmts f lines modNames body
     | .funcDef _ name decos args returns body r =>
       visitFunction f lines modNames name decos args returns body r
